@@ -143,8 +143,19 @@ def gauss_newton_step(seed, n):
             g = Graph(es, g._vertices)
         if ffp:
             g._vertices[0].fixed = True
+        if rng.random() < 0.25:
+            # very small (or very large) information: the Gauss-Newton step does not depend on a common scale of the information matrices
+            sc_info = 10.0 ** rng.choice([-rng.uniform(9, 13), rng.uniform(6, 9)])
+            for e in g._edges:
+                e.information = np.asarray(e.information, dtype=np.float64) * sc_info
         bad = False
         for step in range(rng.randint(1, 3)):
+            if step > 0 and rng.random() < 0.4:
+                # the fixed set GROWS between two calls on the same Graph object (freezing an old pose): the next step is the
+                # Gauss-Newton step of the current fixed set, nothing of the earlier assembly may survive
+                free_now = [v for v in g._vertices[1:] if not v.fixed]
+                if len(free_now) >= 2:
+                    rng.choice(free_now).fixed = True
             H, b, off = dense_system(g)
             try:
                 if np.linalg.cond(H) > 1e10:
@@ -178,9 +189,34 @@ def fixed_vertices(seed, n):
     rng = random.Random(seed)
     fails, evals = [], 0
     for i in range(n):
-        mode = rng.choice(['wellposed', 'wellposed', 'isolated_fixed', 'underconstrained', 'all_fixed', 'diverge'])
+        mode = rng.choice(['wellposed', 'wellposed', 'isolated_fixed', 'underconstrained', 'all_fixed', 'diverge', 'station', 'shared_start'])
         g, kind, ffp = mixed_graph(rng, with_custom=rng.random() < 0.5, fixed_mode=rng.choice(['first', 'some']))
         vs = g._vertices
+        if mode == 'station':
+            # a FIXED pose whose only edge is one landmark observation: its own Hessian block J^T Omega J is rank-deficient,
+            # which is harmless because the block of a fixed vertex is the identity
+            lms = [v for v in vs if isinstance(v.pose, (PoseR2, PoseR3))]
+            if kind in ('SE2', 'SE3') and lms:
+                P = PoseSE2 if kind == 'SE2' else PoseSE3
+                lm = rng.choice(lms)
+                st_pose = P([rng.gauss(0, 2) for _ in range(2)], rng.uniform(-3, 3)) if kind == 'SE2' else P([rng.gauss(0, 2) for _ in range(3)], oe.rand_unit_quat(rng))
+                station = Vertex(10 ** 8 + i, st_pose, fixed=True)
+                z = st_pose.inverse + lm.pose
+                dl = lm.pose.COMPACT_DIMENSIONALITY
+                es2 = list(g._edges) + [EdgeLandmark([station.id, lm.id], oe.rand_spd(rng, dl, 10.0), z, offset=P.identity(), offset_id=None)]
+                for x in es2:
+                    x.vertices = None
+                g = Graph(es2, vs + [station])
+                vs = g._vertices
+            else:
+                mode = 'wellposed'
+        elif mode == 'shared_start':
+            # every pose vertex starts from ONE shared pose object (e.g. all initialised at the origin): optimize() must rebind, never
+            # write through the shared object
+            grp = [v for v in vs if type(v.pose) is type(vs[0].pose)]
+            shared = vs[0].pose.copy()
+            for v in grp:
+                v.pose = shared
         if mode == 'isolated_fixed':
             P = type(vs[0].pose)
             extra = Vertex(10 ** 9 + i, vs[0].pose.copy(), fixed=True)
@@ -199,7 +235,32 @@ def fixed_vertices(seed, n):
         flags0 = [bool(v.fixed) for v in vs]
         before = [np.array(v.pose).copy() for v in vs]
         iters = rng.randint(1, 20)
+        wellposed0 = False
+        if mode == 'isolated_fixed':
+            # the claim below is only made when the graph is well-posed to begin with (e.g. fixing nothing but a landmark point leaves
+            # the rotation of an SE(3) graph about it free: a singular system whatever the isolated vertex does)
+            H0, b0, off0 = dense_system(g)
+            if ffp and not vs[0].fixed:
+                H0[off0[0]:off0[1], :] = 0
+                H0[:, off0[0]:off0[1]] = 0
+                H0[off0[0]:off0[1], off0[0]:off0[1]] = np.eye(off0[1] - off0[0])
+            wellposed0 = bool(np.all(np.isfinite(H0)) and np.linalg.cond(H0) < 1e8)
+            iters = min(iters, 3)
         H, b, off = dense_system(g) if mode == 'wellposed' else (None, None, None)
+        step_ref = None
+        if mode in ('station', 'shared_start'):
+            iters = 1
+            Hs, bs, offs = dense_system(g)
+            fx = [bool(v.fixed) or (ffp and k == 0) for k, v in enumerate(vs)]
+            for k in range(len(vs)):
+                if fx[k] and not vs[k].fixed:        # fix_first_pose: the reference fixes it too
+                    bs[offs[k]:offs[k + 1]] = 0
+                    Hs[offs[k]:offs[k + 1], :] = 0
+                    Hs[:, offs[k]:offs[k + 1]] = 0
+                    Hs[offs[k]:offs[k + 1], offs[k]:offs[k + 1]] = np.eye(offs[k + 1] - offs[k])
+            if np.all(np.isfinite(Hs)) and np.linalg.cond(Hs) < 1e10:
+                dxs = np.linalg.solve(Hs, -bs)
+                step_ref = [np.array(v.pose) if fx[k] else np.array(v.pose + dxs[offs[k]:offs[k + 1]]) for k, v in enumerate(vs)]
         try:
             g.optimize(tol=0.0, max_iter=iters, fix_first_pose=ffp, verbose=False)
         except Exception as ex:  # noqa
@@ -218,7 +279,14 @@ def fixed_vertices(seed, n):
                 fails.append({'law': 'a fixed vertex moved (mode %s, %d iterations)' % (mode, iters), 'seed': seed, 'case': i, 'vertex_position': k,
                               'before': before[k].tolist(), 'after': np.array(v.pose).tolist(), 'edge': 'graph'})
                 break
-        if mode == 'isolated_fixed':
+        if step_ref is not None:
+            sc = 1.0 + max(float(np.abs(e).max()) for e in step_ref)
+            for k, v in enumerate(vs):
+                if not poses_close(step_ref[k], v.pose, 1e-7 * sc):
+                    fails.append({'law': 'mode %s: after one iteration vertex %d is not pose [+] dx of the reduced dense Gauss-Newton system' % (mode, k),
+                                  'seed': seed, 'case': i, 'vertex_position': k, 'expected': step_ref[k].tolist(), 'got': np.array(v.pose).tolist(), 'edge': 'graph'})
+                    break
+        if mode == 'isolated_fixed' and wellposed0:
             if any(not np.all(np.isfinite(np.array(v.pose))) for v in vs):
                 fails.append({'law': 'a fixed vertex with no incident edge made the problem unsolvable (non-finite poses)', 'seed': seed, 'case': i, 'edge': 'graph'})
     # a vertex fixed in one call and released before the next must move again (no stale fixed set)
@@ -369,6 +437,37 @@ def representation_independence(seed, n):
         for e in g2._edges:
             e.information = e.information * c
         check('scaling all information matrices by %g' % c, Graph(g2._edges, g2._vertices), chi2_factor=c)
+        # ... by a power of two, with the documented stopping rule in force: every chi2 scales exactly, so the run stops at the same iteration
+        pw = rng.choice([-40, -30, 30, 40])
+        ga, gb = copy.deepcopy(base), copy.deepcopy(base)
+        for e in gb._edges:
+            e.information = e.information * (2.0 ** pw)
+        gb = Graph(gb._edges, gb._vertices)
+        tl = 10 ** rng.uniform(-8, -3)
+        try:
+            ra = ga.optimize(tol=tl, max_iter=20, fix_first_pose=False, verbose=False)
+            rb = gb.optimize(tol=tl, max_iter=20, fix_first_pose=False, verbose=False)
+            evals += 1
+            # the documented rule divides by (chi2_prev + machine epsilon): that ABSOLUTE epsilon perturbs the relative decrease of the scaled run
+            # by eps / (scale * chi2_prev); a decision closer to the threshold than that is not required to be the same
+            chis = [ra.initial_chi2] + [it.chi2 for it in ra.iteration_results if it.chi2 is not None]
+            borderline = False
+            for kk, it in enumerate(ra.iteration_results):
+                if it.rel_diff is None or kk >= len(chis) or not chis[kk] or not np.isfinite(chis[kk]):
+                    continue
+                r = -float(it.rel_diff)
+                delta = 2.0 ** -52 / (abs(chis[kk]) * 2.0 ** pw)
+                if abs(r - tl) <= 4 * delta * max(abs(r), tl) + 1e-300 or delta > 0.05:
+                    borderline = True
+            if borderline:
+                pass
+            elif np.isfinite(ga.calc_chi2()) and ((ra.num_iterations, bool(ra.converged)) != (rb.num_iterations, bool(rb.converged))
+                                                or not abs(gb.calc_chi2() - ga.calc_chi2() * 2.0 ** pw) <= 1e-9 * abs(ga.calc_chi2() * 2.0 ** pw) + 1e-300):
+                fails.append({'law': 'scaling all information matrices by 2^%d changes the run: %s iterations (converged=%s, chi2/scale %r) instead of %s '
+                                     '(converged=%s, chi2 %r) at tol=%g' % (pw, rb.num_iterations, rb.converged, gb.calc_chi2() / 2.0 ** pw, ra.num_iterations,
+                                                                          ra.converged, ga.calc_chi2(), tl), 'seed': seed, 'case': i, 'kind': kind, 'edge': 'graph'})
+        except Exception as ex:  # noqa
+            fails.append({'law': 'optimize raised %r under scaling by 2^%d' % (ex, pw), 'seed': seed, 'case': i, 'kind': kind, 'edge': 'graph'})
         # quaternion signs (information without cross terms, see the known finding)
         if kind == 'SE3':
             g2 = copy.deepcopy(base)
@@ -409,6 +508,47 @@ def representation_independence(seed, n):
                 if not poses_close(np.array(va.pose), np.array(vb.pose), 1e-6 * (1 + float(np.abs(np.array(va.pose)).max()))):
                     fails.append({'law': 'negated measurement quaternions in a .g2o file change the optimization result', 'seed': seed, 'case': i, 'edge': 'graph'})
                     break
+        finally:
+            for p in (p1, p2):
+                if os.path.exists(p):
+                    os.remove(p)
+    # relabelled ids (negative, sparse, beyond 2^53) THROUGH a .g2o file: same chi2, same optimization result
+    for i in range(max(2, n // 3)):
+        kind = rng.choice(['SE2', 'SE3'])
+        g0, _ = oe.build_graph(rng, kind, nv=rng.randint(3, 6), landmarks=False, noise=0.02, pert=0.03, info_cross=False)
+        p1 = os.path.join(tempfile.gettempdir(), 'verif_c08_%d_c.g2o' % os.getpid())
+        p2 = os.path.join(tempfile.gettempdir(), 'verif_c08_%d_d.g2o' % os.getpid())
+        try:
+            g0.to_g2o(p1)
+            grel = copy.deepcopy(g0)
+            base_id = rng.choice([1000, -1000, 2 ** 31, 2 ** 53, 2 ** 62, -(2 ** 60)])
+            idmap = {v.id: base_id + (k + 1) * rng.choice([1, 1, 3]) for k, v in enumerate(grel._vertices)}
+            if len(set(idmap.values())) < len(idmap):
+                idmap = {v.id: base_id + k + 1 for k, v in enumerate(grel._vertices)}
+            for v in grel._vertices:
+                v.id = idmap[v.id]
+            for e in grel._edges:
+                e.vertex_ids = [idmap[x] for x in e.vertex_ids]
+            Graph(grel._edges, grel._vertices).to_g2o(p2)
+            ga, gb = Graph.from_g2o(p1), Graph.from_g2o(p2)
+            evals += 1
+            ca, cb = ga.calc_chi2(), gb.calc_chi2()
+            if not abs(ca - cb) <= 1e-9 * (1 + abs(ca)):
+                fails.append({'law': 'relabelling the vertex ids of a .g2o file (ids near %d) changes chi2: %r vs %r' % (base_id, cb, ca), 'seed': seed, 'case': i,
+                              'kind': kind, 'edge': 'graph', 'ids': sorted(idmap.values())})
+                continue
+            ga.optimize(tol=0.0, max_iter=2, verbose=False)
+            gb.optimize(tol=0.0, max_iter=2, verbose=False)
+            pb = {v.id: np.array(v.pose) for v in gb._vertices}
+            for va in ga._vertices:
+                q = pb.get(idmap[va.id])
+                if q is None or not (poses_close(np.array(va.pose), q, 1e-6 * (1 + float(np.abs(np.array(va.pose)).max())))
+                                     or (kind == 'SE2' and np.allclose(np.array(va.pose)[:2], q[:2], atol=1e-6) and abs(math.remainder(float(va.pose[2] - q[2]), 2 * math.pi)) < 1e-6)):
+                    fails.append({'law': 'relabelling the vertex ids of a .g2o file (ids near %d) changes the optimization result' % base_id, 'seed': seed, 'case': i,
+                                  'kind': kind, 'edge': 'graph', 'ids': sorted(idmap.values())})
+                    break
+        except Exception as ex:  # noqa
+            fails.append({'law': 'g2o relabelling raised %r' % (ex,), 'seed': seed, 'case': i, 'edge': 'graph'})
         finally:
             for p in (p1, p2):
                 if os.path.exists(p):
@@ -465,7 +605,8 @@ def linear_optimum(seed, n):
                 es.append(EdgeOdometry([ids[a], ids[b]], Om, P(list(truth[b] - truth[a] + noise))))
             else:
                 off = np.array([rng.gauss(0, 1) for _ in range(d)])
-                es.append(EdgeLandmark([ids[a], ids[b]], Om, P(list(truth[b] - truth[a] - off + noise)), offset=P(list(off)), offset_id=0))
+                es.append(EdgeLandmark([ids[a], ids[b]], Om, P(list(truth[b] - truth[a] - off + noise)), offset=P(list(off)),
+                                       offset_id=(0 if rng.random() < 0.5 else None)))       # the id is only a .g2o label: an offset needs none
         order = list(range(nv)); rng.shuffle(order)
         vlist = [verts[k] for k in order]
         rng.shuffle(es)
@@ -704,7 +845,15 @@ def local_convergence(seed, n, scale=1.0):
             Graph(fresh, tv).calc_chi2()
             g = Graph(fresh, list(g._vertices))
         c0 = _independent_view(g).calc_chi2()
+        staged = (not reuse) and rng.random() < 0.2
         try:
+            if staged:
+                # two-stage use of ONE Graph object: one iteration, then another pose is anchored where it is, then the run to convergence
+                g.optimize(tol=0.0, max_iter=1, verbose=False)
+                cand = [v for v in g._vertices[1:nv] if not v.fixed]
+                if cand:
+                    rng.choice(cand).fixed = True
+                noise_free = False       # the anchored pose is not at its true place: ground truth is no longer the optimum
             res = g.optimize(tol=tol, max_iter=50, verbose=False)
         except Exception as ex:  # noqa
             fails.append({'law': 'optimize raised %r' % (ex,), 'seed': seed, 'case': i, 'edge': 'graph'})
